@@ -102,7 +102,7 @@ int aws_json_value_add_to_object_c_str(struct aws_json_value *object, const char
     if (cJSON_IsInvalid(cjson_value)) {
         return aws_raise_error(AWS_ERROR_INVALID_ARGUMENT);
     }
-    if (cJSON_HasObjectItem(cjson, key)) {
+    if ((cJSON_GetObjectItemCaseSensitive(cjson, key) != NULL)) {
         return AWS_OP_ERR;
     }
 
@@ -125,11 +125,11 @@ struct aws_json_value *aws_json_value_get_from_object_c_str(const struct aws_jso
         aws_raise_error(AWS_ERROR_INVALID_ARGUMENT);
         return NULL;
     }
-    if (!cJSON_HasObjectItem(cjson, key)) {
+    if (!(cJSON_GetObjectItemCaseSensitive(cjson, key) != NULL)) {
         return NULL;
     }
 
-    return (void *)cJSON_GetObjectItem(cjson, key);
+    return (void *)cJSON_GetObjectItemCaseSensitive(cjson, key);
 }
 
 bool aws_json_value_has_key(const struct aws_json_value *object, struct aws_byte_cursor key) {
@@ -146,7 +146,7 @@ bool aws_json_value_has_key_c_str(const struct aws_json_value *object, const cha
     if (!cJSON_IsObject(cjson)) {
         return false;
     }
-    if (!cJSON_HasObjectItem(cjson, key)) {
+    if (!(cJSON_GetObjectItemCaseSensitive(cjson, key) != NULL)) {
         return false;
     }
 
@@ -167,11 +167,11 @@ int aws_json_value_remove_from_object_c_str(struct aws_json_value *object, const
     if (!cJSON_IsObject(cjson)) {
         return aws_raise_error(AWS_ERROR_INVALID_ARGUMENT);
     }
-    if (!cJSON_HasObjectItem(cjson, key)) {
+    if (!(cJSON_GetObjectItemCaseSensitive(cjson, key) != NULL)) {
         return AWS_OP_ERR;
     }
 
-    cJSON_DeleteItemFromObject(cjson, key);
+    cJSON_DeleteItemFromObjectCaseSensitive(cjson, key);
     return AWS_OP_SUCCESS;
 }
 
